@@ -24,36 +24,44 @@ theorem length_dropWhile_le {α : Type} (p : α → Bool) : ∀ l : List α, (l.
     · simp
 
 /-- insertions: each maximal run of (reference gap, query base) columns of the normalised pair,
-    reported as (number of reference bases to its left, length) -/
-def specIns : Nat → List (Nat × Nat) → List (Nat × Nat)
+    reported as (number of reference bases to its left, length); `g` recognises a gap symbol -/
+def specInsBy (g : Nat → Bool) : Nat → List (Nat × Nat) → List (Nat × Nat)
   | _, [] => []
   | n, (r, q) :: t =>
-    if isGap r then
-      have : (t.dropWhile fun c => isGap c.1).length < ((r, q) :: t).length := by
-        have := length_dropWhile_le (fun c : Nat × Nat => isGap c.1) t; simp only [List.length_cons]; omega
-      (n, 1 + (t.takeWhile fun c => isGap c.1).length) :: specIns n (t.dropWhile fun c => isGap c.1)
-    else specIns (n + 1) t
+    if g r then
+      have : (t.dropWhile fun c => g c.1).length < ((r, q) :: t).length := by
+        have := length_dropWhile_le (fun c : Nat × Nat => g c.1) t; simp only [List.length_cons]; omega
+      (n, 1 + (t.takeWhile fun c => g c.1).length) :: specInsBy g n (t.dropWhile fun c => g c.1)
+    else specInsBy g (n + 1) t
 termination_by _ l => l.length
 
+def specIns : Nat → List (Nat × Nat) → List (Nat × Nat) := specInsBy isGap
+
 /-- the query symbols opposite the reference bases, in reference order -/
-def refColumnQuery (cols : List (Nat × Nat)) : List Nat := (cols.filter fun c => !isGap c.1).map (·.2)
+def refColumnQueryBy (g : Nat → Bool) (cols : List (Nat × Nat)) : List Nat := (cols.filter fun c => !g c.1).map (·.2)
+
+def refColumnQuery (cols : List (Nat × Nat)) : List Nat := refColumnQueryBy isGap cols
 
 /-- deletions: maximal runs of gaps in the reference-column subsequence, as (1-based first base, length);
     `i` = 0-based reference index of the head -/
-def specDelRuns : Nat → List Nat → List (Nat × Nat)
+def specDelRunsBy (g : Nat → Bool) : Nat → List Nat → List (Nat × Nat)
   | _, [] => []
   | i, q :: t =>
-    if isGap q then
-      have : (t.dropWhile isGap).length < (q :: t).length := by
-        have := length_dropWhile_le isGap t; simp only [List.length_cons]; omega
-      (i + 1, 1 + (t.takeWhile isGap).length) :: specDelRuns (i + 1 + (t.takeWhile isGap).length) (t.dropWhile isGap)
-    else specDelRuns (i + 1) t
+    if g q then
+      have : (t.dropWhile g).length < (q :: t).length := by
+        have := length_dropWhile_le g t; simp only [List.length_cons]; omega
+      (i + 1, 1 + (t.takeWhile g).length) :: specDelRunsBy g (i + 1 + (t.takeWhile g).length) (t.dropWhile g)
+    else specDelRunsBy g (i + 1) t
 termination_by _ l => l.length
 
+def specDelRuns : Nat → List Nat → List (Nat × Nat) := specDelRunsBy isGap
+
 /-- deletions reported: runs that contain neither the first nor the last reference base -/
-def specDels (cols : List (Nat × Nat)) : List (Nat × Nat) :=
-  let qs := refColumnQuery cols
-  (specDelRuns 0 qs).filter fun d => d.1 ≠ 1 ∧ d.1 + d.2 - 1 ≠ qs.length
+def specDelsBy (g : Nat → Bool) (cols : List (Nat × Nat)) : List (Nat × Nat) :=
+  let qs := refColumnQueryBy g cols
+  (specDelRunsBy g 0 qs).filter fun d => d.1 ≠ 1 ∧ d.1 + d.2 - 1 ≠ qs.length
+
+def specDels (cols : List (Nat × Nat)) : List (Nat × Nat) := specDelsBy isGap cols
 
 def specIndels (ref q : List Nat) : List Variant :=
   let cols := normalise ref q
